@@ -668,14 +668,60 @@ func c15Main(c *Ctx, r *Report) {
 	r.Check(bad == "", "main-wiring", "errors are fatal", fn.Pos(), "", bad)
 }
 
+// summaryCounter: the function of package formattedoutput that tallies a result
+// set — the reference tree's (*resultsTable).newRT, or (after a rename / a move to
+// a constructor function) the unique function there that takes a lint.LintStatus
+// threshold and a *zlint.ResultSet.
+func summaryCounter(c *Ctx) *ssa.Function {
+	if f := c.MethodMaybe("formattedoutput", "resultsTable", "newRT"); f != nil {
+		return f
+	}
+	var cands []*ssa.Function
+	for _, f := range modFunctions(c) {
+		if f.Parent() != nil || relPkg(fnPkgPath(f)) != "formattedoutput" {
+			continue
+		}
+		hasThr, hasRes := false, false
+		for _, p := range f.Params {
+			switch {
+			case strings.HasSuffix(p.Type().String(), "lint.LintStatus"):
+				hasThr = true
+			case strings.HasSuffix(p.Type().String(), "v3.ResultSet"):
+				hasRes = true
+			}
+		}
+		if hasThr && hasRes {
+			cands = append(cands, f)
+		}
+	}
+	if len(cands) == 1 {
+		return cands[0]
+	}
+	return c.Method("formattedoutput", "resultsTable", "newRT") // reports the unresolved anchor
+}
+
 func c15Summary(c *Ctx, r *Report) {
-	fn := c.Method("formattedoutput", "resultsTable", "newRT")
+	fn := summaryCounter(c)
 	outs, abort := Enumerate(fn, SymOpts{Inline: func(*ssa.Function) bool { return false }, LoopBound: 1, MaxPaths: 50000})
 	if abort != "" {
 		r.Unk("summary-counts", "newRT", fn.Pos(), abort)
 		return
 	}
-	recv, thr, res := fn.Params[0].Name(), fn.Params[1].Name(), fn.Params[2].Name()
+	recv, thr, res := "", "", ""
+	for _, p := range fn.Params {
+		switch {
+		case strings.HasSuffix(p.Type().String(), "lint.LintStatus"):
+			thr = p.Name()
+		case strings.HasSuffix(p.Type().String(), "v3.ResultSet"):
+			res = p.Name()
+		case strings.HasSuffix(p.Type().String(), "resultsTable"):
+			recv = p.Name()
+		}
+	}
+	if thr == "" || res == "" {
+		r.Unk("summary-counts", "newRT", fn.Pos(), "the tallying function has no threshold / result-set parameter")
+		return
+	}
 	bad := ""
 	iterSeen := false
 	for _, o := range outs {
@@ -686,7 +732,7 @@ func c15Summary(c *Ctx, r *Report) {
 		// the count map allocated in this call
 		var countMap *T
 		for _, ev := range o.Trace {
-			if ev.Kind == "store" && ev.Name == "&"+recv+".resultCount" {
+			if ev.Kind == "store" && (ev.Name == "&"+recv+".resultCount" || (recv == "" && strings.HasSuffix(ev.Name, ".resultCount"))) {
 				if ev.Args[0].Op != "obj" {
 					bad = "resultCount is not a fresh map per call: counts accumulate across summary tables"
 				}
@@ -694,6 +740,21 @@ func c15Summary(c *Ctx, r *Report) {
 					bad = "resultCount replaced twice"
 				}
 				countMap = ev.Args[0]
+			}
+		}
+		if countMap == nil && recv == "" {
+			// constructor form: the table is a local value whose resultCount field the
+			// function itself fills in
+			for k, v := range o.Lit {
+				if strings.HasSuffix(k, ".resultCount") {
+					if v.Op != "obj" {
+						bad = "resultCount is not a fresh map per call: counts accumulate across summary tables"
+					}
+					if countMap != nil && countMap != v {
+						bad = "resultCount replaced twice"
+					}
+					countMap = v
+				}
 			}
 		}
 		if countMap == nil {
@@ -750,14 +811,31 @@ func c15Summary(c *Ctx, r *Report) {
 	// OutputSummary: fresh table, threshold Pass, same result set
 	os := c.Func("formattedoutput", "OutputSummary")
 	ok := false
-	for _, call := range callsTo(os, "(*formattedoutput.resultsTable).newRT") {
-		a := call.Common().Args
-		_, fresh := a[0].(*ssa.Alloc)
-		thrK, isK := a[1].(*ssa.Const)
-		if fresh && isK && thrK.Value != nil && thrK.Value.ExactString() == "3" && a[2] == ssa.Value(os.Params[0]) {
+	allInstrs(os, func(in ssa.Instruction) {
+		call, isCall := in.(ssa.CallInstruction)
+		if !isCall || call.Common().StaticCallee() != fn {
+			return
+		}
+		fresh, thrOK, resOK := recv == "", false, false
+		for i, a := range call.Common().Args {
+			if i >= len(fn.Params) {
+				break
+			}
+			switch fn.Params[i].Name() {
+			case recv:
+				_, fresh = a.(*ssa.Alloc)
+			case thr:
+				if k, isK := a.(*ssa.Const); isK && k.Value != nil && k.Value.ExactString() == "3" {
+					thrOK = true
+				}
+			case res:
+				resOK = a == ssa.Value(os.Params[0])
+			}
+		}
+		if fresh && thrOK && resOK {
 			ok = true
 		}
-	}
+	})
 	r.Check(ok, "summary-counts", "OutputSummary", os.Pos(), "new table per call, threshold Pass, the given result set", "OutputSummary does not build a fresh table from the given result set with threshold Pass (counts would be shared between tables or computed from other results)")
 	// printed count = resultCount[level]
 	printed := 0
